@@ -68,7 +68,8 @@ Definition rollback_std (c : cfg) (restore_x : bool) : list op :=
 Definition kriging_nvar (c : cfg) : Z := if 0 <? g_matlc c then g_matlc c else g_mnvar c.
 
 Definition kriging_check (c : cfg) (gout : bool) (s : st) : bool :=
-  check_interp c s && g_has_in c && g_extra_ok c && (negb (g_dgm c) || gout).
+  check_interp c s && g_has_in c && g_extra_ok c && (negb (g_dgm c) || gout) &&
+  (negb (g_fixed c) || g_neigh_only c || (0 <? locnum (getdb WIn s) L_Z)).   (* last test: fixes/C19_5.patch only *)
 
 Definition kriging_pre (c : cfg) (gout : bool) : list op :=
   let status := if 0 <=? g_single c then 2 else 1 in
